@@ -284,7 +284,10 @@ class Frame:
         return f
 
 
-def merge_frames(c, a, b):
+def merge_frames(c, a, b, lenient=False):
+    """lenient: `a` is the continuation of a statement sequence and `b` the path
+    that already left it (return/break/continue): a variable that `a` re-declared
+    with another type (shadowing) is dead on `b`, so `a`'s value is kept"""
     f = Frame(a.fname)
     if len(a.scopes) != len(b.scopes) or len(a.loops) != len(b.loops):
         raise Unsupported("merge of frames with different shapes in %s" % a.fname)
@@ -293,7 +296,12 @@ def merge_frames(c, a, b):
         sc = {}
         for k in sa:
             if k in sb:
-                sc[k] = merge(c, sa[k], sb[k], "variable `%s` in %s" % (k, a.fname))
+                try:
+                    sc[k] = merge(c, sa[k], sb[k], "variable `%s` in %s" % (k, a.fname))
+                except Unsupported:
+                    if not lenient:
+                        raise
+                    sc[k] = sa[k]
         f.scopes.append(sc)
     f.ret = Ite(c, a.ret, b.ret)
     f.retval = merge(c, a.retval, b.retval, "return value of %s" % a.fname)
@@ -304,7 +312,10 @@ def merge_frames(c, a, b):
 class Interp:
     def __init__(self, asts, cfg=None):
         """asts: {file: [items]} as dumped by rs2smt-ast"""
-        self.cfg = dict(while_unroll=6, tighten=True, tighten_min_cap=10)
+        # tighten: "solver" = prove least static bounds by lemma queries; "clamp" = cut capacities
+        # at cfg str_limit / int_limit and record a capacity obligation (discharged later by the
+        # external solver); "off" = keep the static over-approximations
+        self.cfg = dict(while_unroll=6, tighten="solver", tighten_min_cap=10, str_limit=None, int_limit=None)
         if cfg:
             self.cfg.update(cfg)
         self.fns = {}        # name -> (file, node)
@@ -343,6 +354,7 @@ class Interp:
         self.assumptions = []       # global assumptions (input well-formedness, harness assumptions)
         self.panics = []            # (cond, reason, where)
         self.unwind = []            # (cond, where): loop bound reached with the guard still true
+        self.capacity = []          # (cond, what): a clamped capacity would be exceeded
         self.encoded = {}           # (file, fn name) -> (line, end_line)
         self.cur_file = "?"
         self.lemma_queries = 0
@@ -378,6 +390,24 @@ class Interp:
     def no_unwind(self):
         return And(*[Not(c) for c, _ in self.unwind])
 
+    def within_capacity(self):
+        return And(*[Not(c) for c, _ in self.capacity])
+
+    def clamp_int(self, v):
+        lim = self.cfg["int_limit"]
+        if lim is None or bvval(v.term) is not None or (v.hi is not None and v.hi <= lim):
+            return v
+        self.capacity.append((And(self.pcond(), z3.UGT(v.term, bv(lim, IW))), "integer > %d" % lim))
+        return IntV(v.term, lim)
+
+    def clamp_str(self, v):
+        lim = self.cfg["str_limit"]
+        b = v.b
+        if lim is None or b.cap <= lim:
+            return v
+        self.capacity.append((And(self.pcond(), z3.UGT(b.n, L(lim))), "string longer than %d" % lim))
+        return StrV(BStr(b.n, b.chars[:lim]))
+
     # in-process incremental solver: used only for *lemmas* (feasibility pruning
     # of loop unrolling and tightening of static capacities); each is a solver
     # verdict over all values and is counted in the evidence.
@@ -410,7 +440,9 @@ class Interp:
 
     def tighten_int(self, v):
         """least static upper bound of an IntV under the current path (solver-proven)"""
-        if bvval(v.term) is not None or not self.cfg["tighten"]:
+        if self.cfg["tighten"] == "clamp":
+            return self.clamp_int(v)
+        if bvval(v.term) is not None or self.cfg["tighten"] != "solver":
             return v
         key = ("i", v.term.get_id(), self.pcond().get_id(), len(self.panics))
         if key in self._tight_cache:
@@ -428,7 +460,9 @@ class Interp:
 
     def tighten_str(self, v):
         b = v.b
-        if b.cap < self.cfg["tighten_min_cap"] or bvval(b.n) is not None or not self.cfg["tighten"]:
+        if self.cfg["tighten"] == "clamp":
+            return self.clamp_str(v)
+        if b.cap < self.cfg["tighten_min_cap"] or bvval(b.n) is not None or self.cfg["tighten"] != "solver":
             return v
         key = ("s", b.n.get_id(), b.cap, self.pcond().get_id(), len(self.panics))
         if key in self._tight_cache:
@@ -466,7 +500,7 @@ class Interp:
     def tighten_state(self):
         """tighten the static capacities of every live variable (sound: each
         new bound is proven by a solver query under the current path)"""
-        if not self.cfg["tighten"]:
+        if self.cfg["tighten"] == "off":
             return
         for fr in self.frames:
             for sc in fr.scopes:
@@ -495,7 +529,7 @@ class Interp:
         self.pc.pop()
         if len(st1) != len(st2):
             raise Unsupported("branches leave different call depths")
-        self.frames = [merge_frames(c, a, b) for a, b in zip(st1, st2)]
+        self.frames = [merge_frames(c, a, b, lenient=(where == "sequence")) for a, b in zip(st1, st2)]
         return merge(c, v1, v2, where)
 
     @property
